@@ -38,5 +38,18 @@ run_one() {
 }
 for f in selftest/mutants/*.mut; do run_one "$f" mutant; done
 for f in selftest/neutral/*.mut; do [ -e "$f" ] && run_one "$f" neutral; done
+# seeded changes produced by independent sub-agents (seeded/<id>/patch.diff): each must be reported
+for d in seeded/*/; do
+  name=$(basename "$d")
+  [ -f "$d/patch.diff" ] || continue
+  [ -n "$filter" ] && [[ "$name" != *"$filter"* ]] && continue
+  out=$(SKIP_DEMO=1 ./seeded/try.sh "$name" 2>&1 | grep -v conda)
+  n=$((n+1))
+  if grep -q "check-exit=1" <<<"$out" && ! grep -q "violations=0" <<<"$out"; then
+    echo "ok   seeded $name: $(head -1 <<<"$out" | sed 's/.*violations=/violations=/'): $(sed -n 2p <<<"$out" | cut -c1-90)"
+  else
+    echo "MISS seeded $name: $out"; fail=1
+  fi
+done
 echo "selftest: $n cases, fail=$fail"
 exit $fail
